@@ -99,6 +99,11 @@ fn_names_that_imply_ordered_windowed_situation = {
     "lead",
     "_row_number",
     "row_number",
+    # the first / last (non-missing) value of a partition and the fills depend on the order of its rows
+    "first",
+    "last",
+    "bfill",
+    "ffill",
 }
 
 
